@@ -312,6 +312,292 @@ theorem readTL_gen (r r' : Rd) (buf : Bytes) (p x : Nat) (h : At r buf p) (e : r
     have : ¬ ((buf.drop (p + 1)).length < tlExtra y) := by simp; omega
     simp only [rdTL, if_neg hy, if_neg this, hx]
 
+
+theorem nameLoop_gen : ∀ (fuel : Nat) (r r' : Rd) (buf : Bytes) (p en : Nat) (acc n : Name) (s s' : Nat), At r buf p →
+    nameLoop fuel r en acc s = .ok (n, s', r') → ∃ p', p ≤ p' ∧ At r' buf p' := by
+  intro fuel
+  induction fuel with
+  | zero =>
+    intro r r' buf p en acc n s s' h e
+    simp only [nameLoop] at e
+    split at e
+    · cases e
+    · obtain ⟨_, _, rfl⟩ : acc = n ∧ s = s' ∧ r = r' := by simpa using e
+      exact ⟨p, Nat.le_refl _, h⟩
+  | succ fuel ih =>
+    intro r r' buf p en acc n s s' h e
+    simp only [nameLoop] at e
+    split at e
+    · split at e
+      · cases e
+      · obtain ⟨_, _, rfl⟩ : acc = n ∧ s = s' ∧ r = r' := by simpa using e
+        exact ⟨p, Nat.le_refl _, h⟩
+    · obtain ⟨⟨t, r1⟩, e1, e2⟩ := bind_ok_inv e
+      obtain ⟨k1, _, _, _, a1, _⟩ := readTL_gen R r r1 buf p t h e1
+      simp only [] at e2
+      obtain ⟨⟨l, r2⟩, e3, e4⟩ := bind_ok_inv e2
+      obtain ⟨k2, _, _, _, a2, _⟩ := readTL_gen R r1 r2 buf _ l a1 e3
+      simp only [] at e4
+      split at e4
+      · cases e4
+      · obtain ⟨⟨v, r3⟩, e5, e6⟩ := bind_ok_inv e4
+        obtain ⟨_, _, a3⟩ := readBuf_gen R r2 r3 buf _ l v a2 e5
+        simp only [] at e6
+        obtain ⟨p', hp', a4⟩ := ih r3 r' buf _ en _ n _ s' a3 e6
+        exact ⟨p', by omega, a4⟩
+
+theorem readNameField_gen (r r' : Rd) (buf : Bytes) (p l : Nat) (n : Name) (s' : Nat) (h : At r buf p)
+    (e : readNameField r l = .ok (n, s', r')) : ∃ p', p ≤ p' ∧ At r' buf p' := by
+  simp only [readNameField] at e
+  obtain ⟨_, _, e2⟩ := bind_ok_inv e
+  exact nameLoop_gen R _ r r' buf p _ _ n _ s' h e2
+
 end
+
+/-! ### the invariant of the ordered Data loop on arbitrary input -/
+
+/-- once a SignatureValue was decoded: the reported signed portion is the range from the context's
+    start marker to the start `e` of the SignatureValue TLV, whose header (as the reader decodes it)
+    has type 23 and the length of the reported signature value, which is its value -/
+def Good (V : Bytes) (st : DataSt) : Prop :=
+  ∀ sv, st.v.sv = some sv → ∃ e h1 h2, st.sigCoverStart ≤ e ∧ e + h1 + h2 + sv.length ≤ V.length
+    ∧ rdTL (V.drop e) = some (23, h1) ∧ rdTL (V.drop (e + h1)) = some (sv.length, h2)
+    ∧ st.sigCovered = (V.drop st.sigCoverStart).take (e - st.sigCoverStart)
+    ∧ sv = (V.drop (e + h1 + h2)).take sv.length
+
+/-- the first byte is one of the known Data element types -/
+def KnownHead (V : Bytes) : Prop := V.headD 0 ∈ [7, 20, 21, 22, 23]
+
+/-- loop invariant: `q` = progress + 1, `x` = start position of the current / next element -/
+def J (V : Bytes) (st : DataSt) (q x : Nat) : Prop :=
+  st.sigCoverStart ≤ x ∧ (q ≤ 6 → st.sigCovered = [] ∧ st.v.sv = none) ∧ Good V st
+  ∧ (KnownHead V → (q ≤ 1 → x = 0) ∧ (2 ≤ q → st.sigCoverStart = 0))
+
+theorem dataIdx_some {t k : Nat} (h : dataIdx t = some k) :
+    (k = 2 ∧ t = 7) ∨ (k = 3 ∧ t = 20) ∨ (k = 4 ∧ t = 21) ∨ (k = 5 ∧ t = 22) ∨ (k = 6 ∧ t = 23) := by
+  unfold dataIdx at h
+  repeat' split at h
+  all_goals simp at h
+  all_goals omega
+
+theorem knownHead_idx {V : Bytes} {t h1 : Nat} (hk : KnownHead V) (h : rdTL (V.drop 0) = some (t, h1)) :
+    dataIdx t ≠ none := by
+  cases V with
+  | nil => simp [rdTL] at h
+  | cons y rest =>
+    simp [KnownHead] at hk
+    have hy : y ≤ 0xfc := by omega
+    simp [rdTL, hy] at h
+    obtain ⟨rfl, _⟩ := h
+    rcases hk with rfl | rfl | rfl | rfl | rfl <;> simp [dataIdx]
+
+section
+variable (R : ReaderSpecs) (R2 : ReaderSpecs2)
+include R R2
+
+/-- slots 2–5 (Name, MetaInfo, Content, SignatureInfo) leave the signature bookkeeping alone -/
+theorem dataHandle_other (k : Nat) (hk : k ≠ 6) (hk2 : 2 ≤ k) (hk5 : k ≤ 6) (st st' : DataSt) (l sp : Nat) (r r' : Rd) (V : Bytes) (p : Nat)
+    (h : At r V p) (e : dataHandle k st l sp r = .ok (st', r')) :
+    (∃ p', p ≤ p' ∧ At r' V p') ∧ st'.sigCovered = st.sigCovered ∧ st'.sigCoverStart = st.sigCoverStart
+      ∧ st'.v.sv = st.v.sv := by
+  simp only [dataHandle] at e
+  split at e
+  · obtain ⟨⟨n, s1, r1⟩, e1, e2⟩ := bind_ok_inv e
+    simp at e2
+    obtain ⟨rfl, rfl⟩ := e2
+    exact ⟨readNameField_gen R r r1 V p l n s1 h e1, rfl, rfl, rfl⟩
+  · split at e
+    · obtain ⟨⟨sub, r1⟩, e1, e2⟩ := bind_ok_inv e
+      simp only [] at e2
+      obtain ⟨m, _, e3⟩ := bind_ok_inv e2
+      simp at e3
+      obtain ⟨rfl, rfl⟩ := e3
+      exact ⟨delegate_gen R R2 r sub r1 V p l h e1, rfl, rfl, rfl⟩
+    · split at e
+      · obtain ⟨⟨c, r1⟩, e1, e2⟩ := bind_ok_inv e
+        simp at e2
+        obtain ⟨rfl, rfl⟩ := e2
+        obtain ⟨_, _, a1⟩ := readWire_gen R r r1 V p l c h e1
+        exact ⟨⟨p + l, by omega, a1⟩, rfl, rfl, rfl⟩
+      · split at e
+        · obtain ⟨⟨sub, r1⟩, e1, e2⟩ := bind_ok_inv e
+          simp only [] at e2
+          obtain ⟨m, _, e3⟩ := bind_ok_inv e2
+          simp at e3
+          obtain ⟨rfl, rfl⟩ := e3
+          exact ⟨delegate_gen R R2 r sub r1 V p l h e1, rfl, rfl, rfl⟩
+        · omega
+
+/-- one outer iteration of the ordered Data loop preserves the invariant (all branches) -/
+theorem ordLoop_inv (V : Bytes) (typ l sp p h1 h2 : Nat)
+    (ht : rdTL (V.drop sp) = some (typ, h1)) (hl : rdTL (V.drop (sp + h1)) = some (l, h2)) (hp : p = sp + h1 + h2) :
+    ∀ (fuel q : Nat) (st : DataSt) (r : Rd), At r V p → r.Live → J V st q sp → 8 ≤ q + fuel →
+      ∀ (st' : DataSt) (q' : Nat) (r' : Rd),
+        ordLoop 7 dataIdx dataHandle dataAbsent typ l sp fuel q st r = .ok ((st', q'), r') →
+        ∃ p', p ≤ p' ∧ At r' V p' ∧ J V st' q' p' := by
+  have hh1 := (rdTL_pos ht).1
+  have hh2 := (rdTL_pos hl).1
+  intro fuel
+  induction fuel with
+  | zero =>
+    intro q st r ha _ hj hq st' q' r' e
+    simp only [ordLoop] at e
+    obtain ⟨⟨rfl, rfl⟩, rfl⟩ : (st = st' ∧ q = q') ∧ r = r' := by simpa using e
+    obtain ⟨j1, j2, j3, j4⟩ := hj
+    exact ⟨p, Nat.le_refl _, ha, by omega, fun h => by omega, j3, fun hk => ⟨fun h => by omega, fun _ => (j4 hk).2 (by omega)⟩⟩
+  | succ fuel ih =>
+    intro q st r ha hlive hj hq st' q' r' e
+    obtain ⟨j1, j2, j3, j4⟩ := hj
+    simp only [ordLoop] at e
+    split at e
+    · rename_i hq7
+      obtain ⟨⟨rfl, rfl⟩, rfl⟩ : (st = st' ∧ q = q') ∧ r = r' := by simpa using e
+      exact ⟨p, Nat.le_refl _, ha, by omega, fun h => by omega, j3, fun hk => ⟨fun h => by omega, fun _ => (j4 hk).2 (by omega)⟩⟩
+    · rename_i hq7
+      split at e
+      · rename_i k hidx
+        have hkk := dataIdx_some hidx
+        split at e
+        · rename_i hqk
+          subst hqk
+          obtain ⟨⟨st1, r1⟩, e1, e2⟩ := bind_ok_inv e
+          simp at e2
+          obtain ⟨⟨rfl, rfl⟩, rfl⟩ := e2
+          by_cases h6 : q = 6
+          · -- SignatureValue
+            subst h6
+            have ht23 : typ = 23 := by omega
+            subst ht23
+            have hq6 : (6 : Nat) ≤ 6 := Nat.le_refl _
+            obtain ⟨jc, jsv⟩ := j2 hq6
+            simp only [dataHandle] at e1
+            simp at e1
+            obtain ⟨⟨c, r2⟩, e3, e4⟩ := bind_ok_inv e1
+            simp at e4
+            obtain ⟨rfl, rfl⟩ := e4
+            obtain ⟨hle, hc, a1⟩ := readWire_gen R r r2 V p l c ha e3
+            have hcl : c.length = l := by rw [hc]; simp; omega
+            have hrange := R.range_eq r2 V (p + l) st.sigCoverStart sp a1 j1 (by omega)
+            refine ⟨p + l, by omega, a1, by simp; omega, fun h => by omega, ?_, fun hk => ⟨fun h => by omega, fun _ => (j4 hk).2 (by omega)⟩⟩
+            intro sv hsv
+            simp at hsv
+            subst hsv
+            refine ⟨sp, h1, h2, j1, by omega, ht, by rw [hcl]; exact hl, ?_, ?_⟩
+            · simp [jc, hrange]
+            · rw [hcl, ← hp]; exact hc
+          · obtain ⟨hp', hs1, hs2, hs3⟩ := dataHandle_other R R2 q h6 (by omega) (by omega) st st1 l sp r r1 V p ha e1
+            obtain ⟨p', hp1, a1⟩ := hp'
+            have hq6 : q ≤ 6 := by omega
+            obtain ⟨jc, jsv⟩ := j2 hq6
+            refine ⟨p', hp1, a1, by rw [hs2]; omega, fun _ => ⟨by rw [hs1]; exact jc, by rw [hs3]; exact jsv⟩, ?_,
+              fun hk => ⟨fun h => by omega, fun _ => by rw [hs2]; exact (j4 hk).2 (by omega)⟩⟩
+            intro sv hsv
+            rw [hs3, jsv] at hsv; cases hsv
+        · rename_i hqk
+          -- absent-action of slot q, continue with q + 1
+          refine ih (q + 1) (dataAbsent q st sp r) r ha hlive ?_ (by omega) st' q' r' e
+          by_cases hq1 : q = 1
+          · subst hq1
+            obtain ⟨jc, jsv⟩ := j2 (by omega)
+            refine ⟨by simp [dataAbsent], fun _ => by simpa [dataAbsent] using ⟨jc, jsv⟩, ?_,
+              fun hk => ⟨fun h => by omega, fun _ => by simpa [dataAbsent] using (j4 hk).1 (by omega)⟩⟩
+            intro sv hsv
+            simp [dataAbsent] at hsv
+            rw [jsv] at hsv; cases hsv
+          · have : dataAbsent q st sp r = st := by simp [dataAbsent, hq1]
+            rw [this]
+            exact ⟨j1, fun h => j2 (by omega), j3, fun hk => ⟨fun h => (j4 hk).1 (by omega), fun h => (j4 hk).2 (by omega)⟩⟩
+      · rename_i hidx
+        split at e
+        · cases e
+        · obtain ⟨r1, e1, e2⟩ := bind_ok_inv e
+          simp at e2
+          obtain ⟨⟨rfl, rfl⟩, rfl⟩ := e2
+          obtain ⟨hle, a1⟩ := skip_gen R r r1 V p l ha hlive e1
+          refine ⟨p + l, by omega, a1, by omega, fun h => j2 (by omega), j3, fun hk => ?_⟩
+          by_cases hq1 : q ≤ 1
+          · have := (j4 hk).1 hq1
+            subst this
+            exact absurd hidx (knownHead_idx hk ht)
+          · exact ⟨fun h => by omega, fun _ => (j4 hk).2 (by omega)⟩
+
+
+/-- the whole element loop of `DataParsingContext.Parse` preserves the invariant -/
+theorem dataLoop_inv (V : Bytes) : ∀ (fuel : Nat) (st : DataSt) (q : Nat) (r : Rd) (p : Nat), At r V p → J V st q p →
+    ∀ (st' : DataSt) (q' : Nat) (r' : Rd), tlvLoop dataBody fuel (st, q) r = .ok ((st', q'), r') →
+      ∃ p', At r' V p' ∧ J V st' q' p' := by
+  intro fuel
+  induction fuel with
+  | zero => intro st q r p _ _ st' q' r' e; simp [tlvLoop] at e
+  | succ fuel ih =>
+    intro st q r p ha hj st' q' r' e
+    simp only [tlvLoop, R.pos_eq r V p ha, R.length_eq r V p ha] at e
+    split at e
+    · obtain ⟨⟨rfl, rfl⟩, rfl⟩ : (st = st' ∧ q = q') ∧ r = r' := by simpa using e
+      exact ⟨p, ha, hj⟩
+    · obtain ⟨⟨typ, r1⟩, e1, e2⟩ := bind_ok_inv e
+      obtain ⟨h1, ht, _, _, a1, _⟩ := readTL_gen R r r1 V p typ ha e1
+      simp only [] at e2
+      obtain ⟨⟨l, r2⟩, e3, e4⟩ := bind_ok_inv e2
+      obtain ⟨h2, hl, _, _, a2, l2⟩ := readTL_gen R r1 r2 V _ l a1 e3
+      simp only [] at e4
+      split at e4
+      · cases e4
+      · obtain ⟨⟨⟨st1, q1⟩, r3⟩, e5, e6⟩ := bind_ok_inv e4
+        simp only [dataBody] at e5
+        obtain ⟨p3, _, a3, j3⟩ := ordLoop_inv R R2 V typ l p (p + h1 + h2) h1 h2 ht hl rfl 9 q st r2 a2 l2 hj (by omega)
+          st1 q1 r3 e5
+        exact ih st1 q1 r3 p3 a3 j3 st' q' r' e6
+
+end
+
+theorem ordFinish_data (r : Rd) : ∀ (fuel q : Nat) (s : DataSt),
+    (ordFinish dataAbsent r fuel q s).v = s.v ∧ (ordFinish dataAbsent r fuel q s).sigCovered = s.sigCovered
+      ∧ (2 ≤ q → (ordFinish dataAbsent r fuel q s).sigCoverStart = s.sigCoverStart) := by
+  intro fuel
+  induction fuel with
+  | zero => intro q s; simp [ordFinish]
+  | succ fuel ih =>
+    intro q s
+    simp only [ordFinish]
+    obtain ⟨i1, i2, i3⟩ := ih (q + 1) (dataAbsent q s r.pos r)
+    rw [i1, i2]
+    refine ⟨?_, ?_, fun hq => ?_⟩
+    · unfold dataAbsent; split <;> rfl
+    · unfold dataAbsent; split <;> rfl
+    · have hq1 : q ≠ 1 := by omega
+      rw [i3 (by omega)]; simp [dataAbsent, hq1]
+
+/-- ALL-INPUT invariant of the Data parser: whenever parsing a Data value `V` (fresh context) succeeds
+    and a SignatureValue was decoded, the reported signed portion is a contiguous range `V[s0, e)` that
+    ends exactly where the SignatureValue TLV starts; the header of that TLV, as the reader decodes
+    it (`h1` bytes of type, `h2` bytes of length), has type 23 and the length of the reported signature
+    value, which is the value of that TLV; and `s0 = 0` when the first byte is a known element type. -/
+theorem parseData_cov (R : ReaderSpecs) (R2 : ReaderSpecs2) (r : Rd) (V : Bytes) (s : DataSt) (sv : Bytes) :
+    At r V 0 → parseData {} r = .ok s → s.v.sv = some sv →
+    ∃ s0 e h1 h2, s0 ≤ e ∧ 0 < h1 ∧ 0 < h2 ∧ e + h1 + h2 + sv.length ≤ V.length
+      ∧ s.sigCovered = (V.drop s0).take (e - s0)
+      ∧ sv = (V.drop (e + h1 + h2)).take sv.length
+      ∧ rdTL (V.drop e) = some (23, h1) ∧ rdTL (V.drop (e + h1)) = some (sv.length, h2)
+      ∧ (V.headD 0 ∈ [7, 20, 21, 22, 23] → s0 = 0) := by
+  intro ha e hsv
+  simp only [parseData] at e
+  obtain ⟨⟨⟨s1, q1⟩, r1⟩, e1, e2⟩ := bind_ok_inv e
+  have hj0 : J V ({ ({} : DataSt) with v := {} }) 0 0 := by
+    refine ⟨Nat.le_refl _, fun _ => ⟨rfl, rfl⟩, ?_, fun _ => ⟨fun _ => rfl, fun h => by omega⟩⟩
+    intro sv h; cases h
+  obtain ⟨p1, a1, j1, j2, j3, j4⟩ := dataLoop_inv R R2 V _ _ 0 r 0 ha hj0 s1 q1 r1 e1
+  simp at e2
+  subst e2
+  obtain ⟨f1, f2, f3⟩ := ordFinish_data r1 (7 - q1) q1 s1
+  rw [f1] at hsv
+  have hq : 7 ≤ q1 := by
+    rcases Nat.lt_or_ge q1 7 with h | h
+    · have := (j2 (by omega)).2; rw [this] at hsv; cases hsv
+    · exact h
+  obtain ⟨e, h1, h2, g1, g2, g3, g4, g5, g6⟩ := j3 sv hsv
+  refine ⟨s1.sigCoverStart, e, h1, h2, g1, (rdTL_pos g3).1, (rdTL_pos g4).1, g2, by rw [f2]; exact g5, g6, g3, g4, ?_⟩
+  intro hk
+  exact (j4 hk).2 (by omega)
 
 end Ndn.C12
